@@ -321,29 +321,50 @@ func c10PrefixStaysReadable(p *Prog, r *Report, rule string) {
 		info := cr.Pkg.TypesInfo
 		good, seen := true, false
 		detail := ""
-		ast.Inspect(cr.Decl.Body, func(x ast.Node) bool {
-			c, ok := x.(*ast.CallExpr)
-			if !ok {
-				return true
-			}
-			switch {
-			case isFunc(info, c, "os", "Create"):
-				seen = true
-			case isFunc(info, c, "os", "OpenFile") && len(c.Args) == 3:
-				seen = true
-				if v, isC := constInt(info, c.Args[1]); isC {
-					// O_RDONLY = 0, O_WRONLY = 1, O_RDWR = 2 in the low bits
-					if v&3 != 2 {
-						good = false
-						detail = "os.OpenFile is called without O_RDWR"
-					}
-				} else {
-					good = false
-					detail = "the flags of os.OpenFile are not a constant the rule can read"
+		var visit func(g *FuncInfo, bind map[types.Object]ast.Expr, bindInfo *types.Info, depth int)
+		visit = func(g *FuncInfo, bind map[types.Object]ast.Expr, bindInfo *types.Info, depth int) {
+			ginfo := g.Pkg.TypesInfo
+			ast.Inspect(g.Decl.Body, func(x ast.Node) bool {
+				c, ok := x.(*ast.CallExpr)
+				if !ok {
+					return true
 				}
-			}
-			return true
-		})
+				switch {
+				case isFunc(ginfo, c, "os", "Create"):
+					seen = true
+				case isFunc(ginfo, c, "os", "OpenFile") && len(c.Args) == 3:
+					seen = true
+					fl, finfo := c.Args[1], ginfo
+					// (the flags may be a parameter of a helper that Create calls with a constant)
+					if o := objOf(ginfo, fl); o != nil && bind[o] != nil {
+						fl, finfo = bind[o], bindInfo
+					}
+					if v, isC := constInt(finfo, fl); isC {
+						// O_RDONLY = 0, O_WRONLY = 1, O_RDWR = 2 in the low bits
+						if v&3 != 2 {
+							good = false
+							detail = "os.OpenFile is called without O_RDWR"
+						}
+					} else {
+						good = false
+						detail = "the flags of os.OpenFile are not a constant the rule can read"
+					}
+				default:
+					if h := p.staticCallee(g.Pkg, c); h != nil && h.Pkg == g.Pkg && h.Decl != nil && h.Decl.Body != nil && depth < 2 && h != g {
+						nb := map[types.Object]ast.Expr{}
+						args := argExprs(c, h)
+						for i, po := range paramObjs(h) {
+							if po != nil && i >= 0 && args[i] != nil {
+								nb[po] = args[i]
+							}
+						}
+						visit(h, nb, ginfo, depth+1)
+					}
+				}
+				return true
+			})
+		}
+		visit(cr, nil, info, 0)
 		if !seen {
 			r.Undecided(rule, "internal/utils/os.Create#read-write", p.pos(cr.Decl), "neither os.Create nor os.OpenFile is called")
 		} else {
@@ -700,15 +721,20 @@ func c03EveryWriteIsHandedOn(p *Prog, r *Report, rule string) {
 		"Delete":    {"Delete": true, "DeleteFile": true},
 	}
 	n := 0
-	for _, recvKey := range []string{"(*pkg/inline/db.db)", "(*fs_db.tx)", "(*pkg/external/db.db)"} {
-		for _, m := range []string{"Set", "SetReader", "Delete"} {
-			fi := p.Func(recvKey + "." + m)
-			if fi == nil {
+	for _, owner := range [][2]string{{"pkg/inline/db", "db"}, {".", "tx"}, {"pkg/external/db", "db"}} {
+		for _, mk := range p.methodsOfWithEmbedded(owner[0], owner[1]) {
+			fi := p.Funcs[mk]
+			if fi == nil || fi.Decl == nil || fi.Decl.Body == nil {
+				continue
+			}
+			m := fi.Decl.Name.Name
+			names, isWrite := forward[m]
+			if !isWrite {
 				continue
 			}
 			n++
-			f := p.FlatOf(fi)
-			names := forward[m]
+			// (the hand-over may sit in a helper of the package: db.storeSet, db.openUpload)
+			f := p.FlatInl(fi)
 			hand := f.Match(func(gn *GNode) bool {
 				if _, isDefer := gn.Ast.(*ast.DeferStmt); isDefer {
 					return false
@@ -928,4 +954,65 @@ func c19GeneratorIsCanonical(p *Prog, r *Report, rule string) {
 	}
 	r.Check(good && n > 0, rule, k+"#canonical-form", p.pos(fi.Decl), "ids are uuid.NewString() / UUID.String() values",
 		"the generator hands out ids that are not in the canonical form the record decoder renders: every id is stored without complaint and read back as a different string; after a restart no content record, content file or version record is found under the id the versions carry")
+}
+
+// methodsOfWithEmbedded: the methods declared on the type and on the struct types of its package it embeds (a handle
+// split into a store half and a commit half keeps its role).
+func (p *Prog) methodsOfWithEmbedded(pkgShort, typeName string) []string {
+	res := p.methodsOf(pkgShort, typeName)
+	pkg := p.Pkg(pkgShort)
+	if pkg == nil {
+		return res
+	}
+	// the actual type behind the role
+	var owner *types.Named
+	if len(res) > 0 {
+		if fi := p.Funcs[res[0]]; fi != nil && fi.Sig() != nil && fi.Sig().Recv() != nil {
+			t := fi.Sig().Recv().Type()
+			if pt, ok := t.(*types.Pointer); ok {
+				t = pt.Elem()
+			}
+			owner, _ = t.(*types.Named)
+		}
+	}
+	if owner == nil {
+		for _, n := range pkg.Types.Scope().Names() {
+			if tn, ok := pkg.Types.Scope().Lookup(n).(*types.TypeName); ok && (n == typeName || canonTypeName(pkgShort+"."+n) == pkgShort+"."+typeName) {
+				owner, _ = tn.Type().(*types.Named)
+			}
+		}
+	}
+	seen := map[string]bool{}
+	var walk func(nt *types.Named, depth int)
+	walk = func(nt *types.Named, depth int) {
+		if nt == nil || depth > 3 {
+			return
+		}
+		st, ok := nt.Underlying().(*types.Struct)
+		if !ok {
+			return
+		}
+		for i := 0; i < st.NumFields(); i++ {
+			f := st.Field(i)
+			if !f.Embedded() {
+				continue
+			}
+			t := f.Type()
+			if pt, ok := t.(*types.Pointer); ok {
+				t = pt.Elem()
+			}
+			et, ok := t.(*types.Named)
+			if !ok || et.Obj().Pkg() != pkg.Types || seen[et.Obj().Name()] {
+				continue
+			}
+			if _, isStruct := et.Underlying().(*types.Struct); !isStruct {
+				continue
+			}
+			seen[et.Obj().Name()] = true
+			res = append(res, p.methodsOf(pkgShort, et.Obj().Name())...)
+			walk(et, depth+1)
+		}
+	}
+	walk(owner, 0)
+	return res
 }
